@@ -59,7 +59,9 @@ HOOKS = {
     "range": ["src/exclusive.rs", "src/inclusive.rs", "src/exclusive_increment.rs", "src/inclusive_increment.rs", "src/lib.rs"],
     "set": ["src/lib.rs", "src/operations/union.rs", "src/operations/intersection.rs", "src/operations/difference.rs",
             "src/operations/symmetric_difference.rs", "src/relations/subset.rs", "src/relations/proper_subset.rs",
-            "src/relations/superset.rs", "src/membership/element_of.rs"],
+            "src/relations/superset.rs", "src/membership/element_of.rs", "src/relations/proper_superset.rs",
+            "src/relations/disjoint.rs", "src/relations/equals.rs", "src/relations/not_equals.rs",
+            "src/membership/not_element_of.rs"],
     "core": ["src/lib.rs", "src/value.rs", "src/program/program.rs", "src/program/symbol_table.rs",
              "src/program/compiler/constants.rs", "src/program/compiler/context.rs", "src/program/compiler/sections.rs",
              "src/structures/set.rs", "src/structures/matrix.rs"],
@@ -101,6 +103,11 @@ def include_line(crate, relp):
     return '\n#[cfg(kani)] include!("%s/%s.rs");\n' % (GEN, hook_name(crate, relp))
 
 
+# extra cargo features of harness copies: forwarding features that the crate's own manifest only reaches through `default`
+# (cargo-kani does not accept `dep/feature` on its command line)
+EXTRA_FEATURES = {"mech-set-h": 'vp_core_set = ["mech-core/set"]'}
+
+
 def _manifest(data, rename=None):
     txt = data.decode()
     lines = [l for l in txt.split("\n") if l.strip() != "[workspace]"]
@@ -123,6 +130,8 @@ def _manifest(data, rename=None):
                 txt = re.sub(r"^\[lib\]", '[lib]\nname = "%s"' % libname, txt, count=1, flags=re.M)
         else:
             txt += '\n[lib]\nname = "%s"\n' % libname
+        if rename in EXTRA_FEATURES:
+            txt = re.sub(r"^\[features\]\s*$", "[features]\n" + EXTRA_FEATURES[rename], txt, count=1, flags=re.M)
     return txt.encode()
 
 
@@ -192,6 +201,60 @@ def _copy_tree(src_root, dst_root, rename=None, hooks=None, crate=None, repo_rel
     return changed
 
 
+# ---------------------------------------------------------------------------------------------------------------- indexmap
+# `indexmap::IndexSet` is replaced, in the verification build only (`cfg(kani)`), by the Vec-backed model
+# engine/models/indexset_model.rs: CBMC gets no verdict on hashbrown's control-group probing (DESIGN A.4), so without it no
+# code that builds a set can be put in front of the solver.  The crate in the scratch workspace is the registry's own
+# indexmap source (version from /repo's Cargo.lock; IndexMap and everything else untouched) with `pub mod set;` switched by cfg.
+# The model is part of every claim that touches a set (C14): "IndexSet behaves as an insertion-ordered duplicate-free list
+# whenever Hash agrees with Eq" is trusted, the Hash/Eq agreement itself is decided by the C14 hash-eq harnesses.
+INDEXMAP_MODEL = os.path.join(VERIF, "engine", "models", "indexset_model.rs")
+
+
+def _indexmap_version():
+    with open(os.path.join(REPO, "Cargo.lock")) as f:
+        t = f.read()
+    m = re.search(r'name = "indexmap"\nversion = "([^"]+)"', t)
+    if not m:
+        raise SystemExit("INCONCLUSIVE: indexmap not found in /repo/Cargo.lock")
+    return m.group(1)
+
+
+def _sync_indexmap():
+    import glob
+    ver = _indexmap_version()
+    cands = sorted(glob.glob(os.path.expanduser("~/.cargo/registry/src/*/indexmap-%s" % ver)))
+    if not cands:
+        raise SystemExit("INCONCLUSIVE: indexmap-%s sources not in the cargo registry cache" % ver)
+    src = cands[0]
+    dst = os.path.join(WS, "x_indexmap")
+    changed = 0
+    for dirpath, dirnames, filenames in os.walk(os.path.join(src, "src")):
+        for fn in filenames:
+            sp = os.path.join(dirpath, fn)
+            relp = os.path.relpath(sp, src)
+            with open(sp, "rb") as f:
+                data = f.read()
+            if relp == os.path.join("src", "lib.rs"):
+                if data.count(b"\npub mod set;\n") != 1:
+                    raise SystemExit("INCONCLUSIVE: `pub mod set;` not found exactly once in indexmap's lib.rs")
+                data = data.replace(b"\npub mod set;\n", b"\n#[cfg(not(kani))]\npub mod set;\n#[cfg(kani)]\n#[path = \"set_model.rs\"]\npub mod set;\n")
+            changed += write_if_changed(os.path.join(dst, relp), data)
+    with open(INDEXMAP_MODEL, "rb") as f:
+        changed += write_if_changed(os.path.join(dst, "src", "set_model.rs"), f.read())
+    with open(os.path.join(src, "Cargo.toml")) as f:
+        real = f.read()
+    hb = re.search(r'\[dependencies\.hashbrown\]\nversion = "([^"]+)"', real).group(1)
+    edition = re.search(r'^edition = "(\d+)"', real, re.M).group(1)
+    manifest = ('[package]\nname = "indexmap"\nversion = "%s"\nedition = "%s"\n\n[lib]\nname = "indexmap"\npath = "src/lib.rs"\n\n'
+                '[features]\ndefault = ["std"]\nstd = []\nserde = ["dep:serde_core"]\ntest_debug = []\n\n'
+                '[dependencies]\nequivalent = { version = "1.0", default-features = false }\n'
+                'hashbrown = { version = "%s", default-features = false }\n'
+                'serde_core = { version = "1.0.220", optional = true, default-features = false }\n' % (ver, edition, hb))
+    changed += write_if_changed(os.path.join(dst, "Cargo.toml"), manifest)
+    return changed, ver
+
+
 _lock_fd = None
 
 
@@ -226,13 +289,16 @@ def sync():
         changed += _copy_tree(os.path.join(REPO, rel), os.path.join(WS, "h_" + crate), rename=hpkg(crate),
                               hooks=set(files), crate=crate, repo_rel=rel, hooked=hooked, member=crate)
         members.append("h_" + crate)
+    n_im, im_ver = _sync_indexmap()
+    changed += n_im
     for d in sorted(os.listdir(WS)):
-        if d.startswith("x_") and os.path.exists(os.path.join(WS, d, "Cargo.toml")):
+        if d.startswith("x_") and d != "x_indexmap" and os.path.exists(os.path.join(WS, d, "Cargo.toml")):
             members.insert(0, d)
     root = "[workspace]\nresolver = \"3\"\nmembers = [%s]\n\n[patch.crates-io]\n" % ", ".join('"%s"' % m for m in members)
     for member in CRATES:
         if member not in NO_PLAIN:
             root += '%s = { path = "%s" }\n' % (PKG[member], member)
+    root += 'indexmap = { path = "x_indexmap" }\n'
     root += "\n[profile.dev]\ndebug = false\n"
     write_if_changed(os.path.join(WS, "Cargo.toml"), root)
     lock_src = os.path.join(REPO, "Cargo.lock")
@@ -244,7 +310,7 @@ def sync():
     vh = os.path.join(WS, "vh")
     if os.path.isdir(vh):
         shutil.rmtree(vh)
-    return {"hooked_sha256": hooked, "files_rewritten": changed}
+    return {"hooked_sha256": hooked, "files_rewritten": changed, "indexmap_version": im_ver}
 
 
 def write_standalone(crate_dir, pkg, cargo_toml, lib_rs):
